@@ -29,7 +29,7 @@ func init() {
 func (Engine) Name() string { return "pvsssim" }
 func (Engine) Runs(prop, tier string) int {
 	if tier == "thorough" {
-		return 150000
+		return 400000
 	}
 	return 9000
 }
@@ -175,6 +175,7 @@ func (Engine) RunOne(t *core.Tape, prop, tier string, info *core.RunInfo) *core.
 	}
 	var K []kyber.Point
 	var E []*pvss.PubVerShare
+	Xdealer2 := append([]kyber.Point{}, X...) // another dealer's own copy of the trustee key list
 	if pn := core.Guard(func() { K, E, err = pvss.VerifyEncShareBatch(suite, H, X, sHp, pubPoly, posted) }); pn != nil {
 		return viol("totality", "verifyencbatch-panic/"+gname, "VerifyEncShareBatch panicked: %v | %s", pn, core.LastStack())
 	}
@@ -207,7 +208,33 @@ func (Engine) RunOne(t *core.Tape, prop, tier string, info *core.RunInfo) *core.
 	info.SigAdd("enc:%d/%d", len(E), n)
 	info.Logf("dealing n=%d t=%d: %d/%d encrypted shares verify (touched=%v commit=%v)", n, th, len(E), n, encTouched, commitTouched)
 	if anyEncTouched {
-		// a tampered dealing: the global challenge covers everything, nothing more to recover from it
+		// a tampered dealing: the global challenge covers everything, nothing more to recover from it.
+		// The trustees and their key list serve other dealers too: the next, honest, dealing over the
+		// SAME key list must verify in full (added after seed C13b: the batch verifier filtered the
+		// caller's key and share slices in place, which shifted every later trustee's key).
+		encs2, pubPoly2, err := pvss.EncShares(suite, H, Xdealer2, randScalar(g, t, "keys2"), uint32(th))
+		if err != nil {
+			return viol("setup", "encshares-error/"+gname, "EncShares (second dealer): %v", err)
+		}
+		sH2 := make([]kyber.Point, n)
+		for i := range sH2 {
+			sH2[i] = pubPoly2.Eval(uint32(i)).V
+		}
+		var K2 []kyber.Point
+		var E2 []*pvss.PubVerShare
+		if pn := core.Guard(func() { K2, E2, err = pvss.VerifyEncShareBatch(suite, H, X, sH2, pubPoly2, encs2) }); pn != nil {
+			return viol("totality", "verifyencbatch-panic/"+gname, "VerifyEncShareBatch (second dealer) panicked: %v | %s", pn, core.LastStack())
+		}
+		if err != nil || len(E2) != n || len(K2) != n {
+			return viol("enc-verify", "honest-enc-share-rejected-after-bad-dealing/"+gname, "after a tampered dealing was checked, an honest dealing to the same trustees: only %d of %d encrypted shares verify (err=%v)", len(E2), n, err)
+		}
+		// and the posted shares of the first dealing are still the ones that were posted
+		for i, e := range posted {
+			if int(e.S.I) != i {
+				return viol("enc-verify", "batch-verification-reordered-its-input/"+gname, "after VerifyEncShareBatch the caller's slot %d holds the share of trustee %d", i, e.S.I)
+			}
+		}
+		info.Probe("second-dealing-after-tampered-one-verified")
 		return nil
 	}
 
